@@ -144,3 +144,7 @@ package filecache
 //@   ghost at return: c.$lent = izero
 //@   ensures @inv c != nil && inv(c)
 //@   ensures @empty c.cache == nil && forall f *os.File :: c.$lent[f] == 0
+
+//@ func New(capacity int) (c *FileCache)  property C14
+//@   fresh c
+//@   ensures c != nil
